@@ -97,6 +97,29 @@ def oracle_methods(ck, tier, deep):
                         if di > 1e-12:
                             ck.violation(dict(sig, clause="integer-dtype"), dict(base, dtype=str(np.dtype(dt)), X=Xi.tolist()),
                                          f"{np.dtype(dt)} input differs from its float copy by {di:.3g} (relative)")
+                    # the operator acts on the pixel values, however the array is laid out: column-major copies, strided and
+                    # reversed views of larger arrays, read-only arrays, float32 / longer floats of the same values
+                    big = np.zeros((2 * rows, 3 * n))
+                    big[::2, ::3] = X
+                    ro = X.copy()
+                    ro.setflags(write=False)
+                    layouts = {"fortran": np.asfortranarray(X), "strided": big[::2, ::3], "reversed": X[::-1, ::-1][::-1, ::-1],
+                               "transposed-copy": np.ascontiguousarray(X.T).T, "read-only": ro}
+                    for lname, Xl in layouts.items():
+                        assert np.array_equal(Xl, X)
+                        try:
+                            Tl = np.asarray(T(Xl), float)
+                        except Exception as e:
+                            ck.violation(dict(sig, clause="layout-exception"), dict(base, layout=lname), f"{lname} input: {type(e).__name__}: {e}")
+                            continue
+                        dl = np.abs(Tl - TX).max() / (np.abs(TX).max() + 1e-300) if Tl.shape == TX.shape else np.inf
+                        if not dl <= 1e-12:
+                            ck.violation(dict(sig, clause="memory-layout"), dict(base, layout=lname, X=X.tolist()),
+                                         f"the same pixel values as a {lname} array give a result different by {dl:.3g} (relative)")
+                        if lname == "read-only":
+                            continue
+                        if not np.array_equal(Xl, X):
+                            ck.violation(dict(sig, clause="layout-input-modified"), dict(base, layout=lname), f"the {lname} input array was modified")
             except Exception as e:
                 ck.violation(dict(sig, clause="exception"), base, f"{type(e).__name__}: {e}")
     # the narrowest admissible half-images (e.g. quadrants of 3- and 5-column images): still a fixed linear operator, or a refusal
@@ -230,6 +253,31 @@ def oracle_tools(ck, tier, deep):
             if df > 1e-9:
                 ck.violation(sig, dict(tool=label, a=a, b=b, X=X.tolist(), Y=Y.tolist()),
                              f"{label}: T(aX+bY) != aT(X)+bT(Y), relative defect {df:.3g}")
+                break
+            # pixel values, not memory: column-major, strided and read-only images give the result of the row-major copy, unmodified
+            big = np.zeros((2 * X.shape[0], 2 * X.shape[1]))
+            big[::2, 1::2] = X
+            ro = X.copy()
+            ro.setflags(write=False)
+            try:
+                ref = np.asarray(quiet(T, X.copy()), float)
+                bad = None
+                for lname, Xl in (("fortran", np.asfortranarray(X)), ("strided", big[::2, 1::2]), ("read-only", ro),
+                                  ("transposed-copy", np.ascontiguousarray(X.T).T)):
+                    keep = Xl.copy()
+                    tl = np.asarray(quiet(T, Xl), float)
+                    if tl.shape != ref.shape or not np.allclose(tl, ref, rtol=0, atol=1e-12 * max(1.0, float(np.nanmax(np.abs(ref)))), equal_nan=True):
+                        bad = (lname, float(np.nanmax(np.abs(tl - ref))) if tl.shape == ref.shape else "shape")
+                    elif not np.array_equal(Xl, keep):
+                        bad = (lname, "input modified")
+                    if bad:
+                        break
+            except Exception as e:
+                ck.violation(dict(sig, clause="layout-exception"), dict(tool=label), f"{type(e).__name__}: {e}")
+                break
+            if bad:
+                ck.violation(dict(sig, clause="memory-layout"), dict(tool=label, layout=bad[0], X=X.tolist()),
+                             f"{label}: the same pixel values as a {bad[0]} array: {bad[1] if isinstance(bad[1], str) else 'result differs by %.3g' % bad[1]}")
                 break
             # detector counts: an integer image is transformed as its float64 copy (centring with fractional origins included)
             if label.startswith(("Transform/", "linbasex/image", "Distributions/remap/corner", "Distributions/linear/uint8", "symmetrise/")):
